@@ -634,6 +634,46 @@ theorem level_least_enlargement_lr (fuel : Nat) (votes : Votes) (hne : votes ≠
   level_least_enlargement lrHareEval fuel votes n prev adj (lrHareEval_fills votes hne hv hn)
     (fun r hr => lrHare_nodup votes hn n [] [] r hr) h
 
+/-- **Levelling terminates (Hare largest remainder).**  Non-negative votes with a positive total, distinct parties,
+    and a baseline result whose keys are parties with positive votes (no `Tie` key): from some fuel bound on the loop
+    always returns an adjustment. -/
+theorem level_terminates_lr (votes : Votes) (hv : ∀ p ∈ votes, 0 ≤ p.2) (hn : (keys votes).Nodup)
+    (hT : 0 < sumVals votes) (n : Nat) (prev : Seats) (prop : Dist)
+    (hp : lrHareEval votes n [] [] = .ok prop)
+    (htier : ∀ p ∈ prop, ∃ c, p.1 = .cand c ∧ 0 < getD votes c 0)
+    (hdrop : nonpropDrop (lowestAllowed prop prev) prev ≤ n) :
+    ∃ F, ∀ fuel, F ≤ fuel → ∃ adj, levelOverhang lrHareEval fuel votes n prev [] = .ok adj := by
+  have hfl : ∀ p ∈ lowestAllowed prop prev, ∃ c, p.1 = .cand c ∧ 0 < getD votes c 0 := by
+    intro p hp'
+    unfold lowestAllowed at hp'
+    obtain ⟨q, hq, rfl⟩ := List.mem_map.mp hp'
+    exact htier q hq
+  obtain ⟨H0, hH0⟩ := lr_meets_eventually votes hv hn hT _ hfl
+  generalize hfloors : lowestAllowed prop prev = floors at hdrop hH0
+  generalize hdr : nonpropDrop floors prev = drop at hdrop
+  refine ⟨max H0 (n - drop + 1) - (n - drop), fun fuel hfuel => ?_⟩
+  obtain ⟨H, hH⟩ := levelLoop_terminates (fun h => lrHareEval votes h [] []) floors
+    (max H0 (n - drop + 1) - (n - drop)) (n - drop) prop fuel hfuel
+    (fun k hk1 _ => by
+      obtain ⟨r, hr, _⟩ := lrHare_answers votes hv hn hT k (by omega)
+      exact ⟨r, hr⟩)
+    (fun h0 => by have := le_max_right H0 (n - drop + 1); omega)
+    (fun _ => by
+      have h1 := le_max_right H0 (n - drop + 1)
+      have h2 := le_max_left H0 (n - drop + 1)
+      have heq : n - drop + (max H0 (n - drop + 1) - (n - drop)) = max H0 (n - drop + 1) := by omega
+      rw [heq]
+      obtain ⟨r, hr, _⟩ := lrHare_answers votes hv hn hT (max H0 (n - drop + 1)) (by omega)
+      exact ⟨r, hr, (belowMin_false_iff _ _).mpr (hH0 _ h2 (by omega) r hr)⟩)
+  refine ⟨H + drop - n, ?_⟩
+  unfold levelOverhang
+  rw [hp]
+  simp only [bind, Except.bind, hfloors, hdr]
+  rw [if_neg (by omega)]
+  simp only [hH]
+  rfl
+
+
 /-! ### LevelOverhangByConstituency -/
 
 /-- **Levelling by constituency is least.**  With the floors summed over the constituencies
